@@ -89,7 +89,10 @@ func Normalize(dict map[string]any, env types.Mapping) (map[string]any, error) {
 
 			for _, namespace := range []string{"network_mode", "ipc", "pid", "uts", "cgroup"} {
 				if n, ok := service[namespace]; ok {
-					ref := n.(string)
+					ref, ok := n.(string)
+					if !ok {
+						return nil, fmt.Errorf("services.%s.%s must be a string", name, namespace)
+					}
 					if strings.HasPrefix(ref, types.ServicePrefix) {
 						shared := ref[len(types.ServicePrefix):]
 						if _, ok := dependsOn[shared]; !ok {
